@@ -363,14 +363,9 @@ Definition denote (t : tyexpr) : option ctype :=
   | None => None
   end.
 
-(* pycparser's lexer skips only blank, tab and newline (t_ignore = ' \t', t_NEWLINE); form feed,
-   vertical tab and carriage return are illegal characters for it *)
-Definition py_ws_ok (w : str) : bool :=
-  forallb (fun c => N.eqb c 32 || N.eqb c 9 || N.eqb c 10)%bool w.
-
-(* cffi.FFI().typeof(render t gaps) *)
-Definition py_typeof (t : tyexpr) (gaps : list str) : option ctype :=
-  if forallb py_ws_ok (firstn (S (List.length (te_tokens t))) gaps) then denote t else None.
+(* cffi.FFI().typeof(render t gaps): cparser._preprocess turns \r \f \v into blanks (commit
+   ec3bae5), blank, tab and newline are skipped by pycparser's lexer: white space does not matter *)
+Definition py_typeof (t : tyexpr) (gaps : list str) : option ctype := denote t.
 
 End Denote.
 
